@@ -359,7 +359,7 @@ def _decode_class(c):
 
 
 def oracle(rng, tier):
-    n = 260 if tier == "quick" else 4000
+    n = 260 if tier == "quick" else 3000
     pts = gen_points(rng, n)
     wit = witnesses()
     allpts = pts + [w for _, w in wit]
